@@ -9,23 +9,35 @@
 (*    variable and every request is judged against the default of the moment;                     *)
 (*  - a request may carry max_wait_ms: the power supply, shared with another coil (OtherPulse),   *)
 (*    then postpones it while it is busy (pend); the postponed command is emitted when its time   *)
-(*    comes (Adv) and is bound by the same watchdogs as an immediate one.                         *)
+(*    comes (Adv) and is bound by the same watchdogs as an immediate one;                         *)
+(*  - the coil may ALSO be the channel of a light (lights with platform: drivers - flashers, GI   *)
+(*    strings on a driver output; cfg.light): the light sets a brightness by enabling the coil    *)
+(*    with that hold power and the default pulse (LightStep; brightness 0: disable), a software   *)
+(*    fade is a train of such steps, one every Tick ms (LightOn(b, f), fade).  The coil's envelope *)
+(*    - power limits, refusal, hold watchdog - binds these steps exactly as it binds enable().    *)
 EXTENDS Integers, Sequences, FiniteSets, TLC
-CONSTANTS Configs,   \* records [id, defPulseMs, maxPulseMs, defPP, maxPP, defHP, maxHP, allowEnable, maxHoldDur, defTE, pwte, dynP, dynT]
+CONSTANTS Configs,   \* records [id, defPulseMs, maxPulseMs, defPP, maxPP, defHP, maxHP, allowEnable, maxHoldDur, defTE, pwte, dynP, dynT, light]
           NONE,      \* marks an omitted argument
           PlatMaxPulse, MsVals, PowVals, TeVals, Steps, MaxTime, MaxOps,
           MwVals,    \* max_wait_ms values of requests (NONE: the request does not wait for the power supply)
           OtherMs,   \* pulse lengths of the other coil on the same power supply
           DefVals,   \* values the placeholder behind a default takes at runtime
           Rel,       \* release_wait_ms of the power supply
-          MaxPend    \* bound on postponed requests
-VARIABLES cfg, now, on, swOffAt, holdOffAt, busy, pend, out, err, nops, act
+          MaxPend,   \* bound on postponed requests
+          LightVals, \* brightness values (percent) asked of the light on the coil
+          FadeMs,    \* fade times of these requests (0: at once)
+          Tick       \* interval of the steps of a software fade
+VARIABLES cfg, now, on, swOffAt, holdOffAt, busy, pend, out, err, nops, act,
+          fade,      \* the software fade of the light in progress: from b0 at t0 to b1 at t1, next step at nx (0: none)
+          lb,        \* the brightness the light set last
+          since      \* when the coil was last switched from not-held to held
 \* on: "off" | "hold" | "swpulse";  out: platform commands emitted by the last step, each
 \* <<kind, pulse_ms, pulse_power, hold_power, duration>>;  err: the last call was refused
 \* busy: the power supply is busy until then (0: idle);  pend: postponed requests [at, k, ms, pp, hp], oldest first
-vars == <<cfg, now, on, swOffAt, holdOffAt, busy, pend, out, err, nops, act>>
+vars == <<cfg, now, on, swOffAt, holdOffAt, busy, pend, out, err, nops, act, fade, lb, since>>
+NoFade == [b0 |-> 0, t0 |-> 0, b1 |-> 0, t1 |-> 0, nx |-> 0]
 Init == /\ cfg \in Configs /\ now = 1 /\ on = "off" /\ swOffAt = 0 /\ holdOffAt = 0 /\ busy = 0 /\ pend = <<>>
-        /\ out = <<>> /\ err = FALSE /\ nops = 0 /\ act = [op |-> "init"]
+        /\ out = <<>> /\ err = FALSE /\ nops = 0 /\ act = [op |-> "init"] /\ fade = NoFade /\ lb = 0 /\ since = 0
 PMs(x) == IF x = NONE THEN cfg.defPulseMs ELSE x
 PP(x) == IF x = NONE THEN (IF cfg.defPP # 0 THEN cfg.defPP ELSE 100) ELSE x
 HP(x) == IF x # NONE THEN x ELSE IF cfg.defHP # 0 THEN cfg.defHP ELSE IF cfg.maxHP # 0 THEN cfg.maxHP
@@ -38,6 +50,8 @@ MsOK(ms) == ms >= 0 /\ (cfg.maxPulseMs = 0 \/ ms <= cfg.maxPulseMs)
 PowOK(pp) == pp >= 0 /\ pp <= PPLimit
 PulseOK(ms, pp) == MsOK(ms) /\ PowOK(pp)
 HoldOK(hp) == hp >= 0 /\ hp <= HPLimit
+\* the same for a hold power given in 1/100 percent (a light's brightness is not a whole percentage)
+HoldOKF(hpf) == hpf >= 0 /\ hpf <= 100 * HPLimit
 TeOK(te) == te >= 0 /\ (cfg.maxHoldDur = 0 \/ te <= cfg.maxHoldDur)
 Max(a, b) == IF a > b THEN a ELSE b
 \* ---- the power supply (mpf/devices/power_supply_unit.py) ----------------------------------------------------
@@ -50,14 +64,15 @@ Psu(b, t, ms, mw) == IF mw = NONE THEN <<0, PsuInstant(b, t, ms)>>
                           IF b1 = 0 \/ mw = 0 \/ b1 > t + mw THEN <<0, PsuInstant(b1, t, ms)>>
                           ELSE <<b1 - t, b1 + ms + Rel>>
 \* ---- what the coil does, as functions on a record of its state (used at call time and when a timer fires) ----
-Cur == [on |-> on, sw |-> swOffAt, ho |-> holdOffAt, busy |-> busy, pend |-> pend, out |-> <<>>, err |-> FALSE]
+Cur == [on |-> on, sw |-> swOffAt, ho |-> holdOffAt, busy |-> busy, pend |-> pend, out |-> <<>>, err |-> FALSE,
+        fade |-> fade, lb |-> lb, since |-> since]
 DIS == <<"disable", 0, 0, 0, 0>>
 Emit(s, c) == [s EXCEPT !.out = Append(@, c)]
 Refused(s) == [s EXCEPT !.err = TRUE]
-DoDisable(s) == [Emit(s, DIS) EXCEPT !.on = "off", !.ho = 0]
+DoDisable(s) == [Emit(s, DIS) EXCEPT !.on = "off", !.ho = 0, !.since = 0]
 \* the coil is switched on to be held: the max_hold_duration watchdog runs from here unless it runs already
 DoEnableNow(s, t, ms, pp, hp) ==
-    [Emit(s, <<"enable", ms, pp, hp, 0>>) EXCEPT !.on = "hold",
+    [Emit(s, <<"enable", ms, pp, hp, 0>>) EXCEPT !.on = "hold", !.since = IF cfg.maxHoldDur = 0 THEN 0 ELSE IF s.on = "hold" THEN s.since ELSE t,
                                                  !.ho = IF cfg.maxHoldDur # 0 /\ s.ho = 0 THEN t + cfg.maxHoldDur ELSE s.ho]
 \* the platform switches it off by itself; the power supply is only told (the command is never postponed)
 DoTimedEnable(s, t, ms, pp, hp, te, mw) ==
@@ -69,7 +84,7 @@ DoPulseNow(s, t, ms, pp) ==
     ELSE IF ms > 0 /\ ms <= PlatMaxPulse THEN Emit(s, <<"pulse", ms, pp, 0, 0>>)
     \* longer than the platform can time: switched on now, switched off by a software timer
     ELSE IF ms = 0      \* degenerate: switched on and off again in the same loop iteration
-    THEN [Emit(Emit(s, <<"enable", 0, pp, pp, 0>>), DIS) EXCEPT !.on = "off", !.ho = 0, !.sw = 0]
+    THEN [Emit(Emit(s, <<"enable", 0, pp, pp, 0>>), DIS) EXCEPT !.on = "off", !.ho = 0, !.sw = 0, !.since = 0]
     ELSE [Emit(s, <<"enable", 0, pp, pp, 0>>) EXCEPT !.on = "swpulse", !.sw = t + ms]
 DoPulse(s, t, msA, ppA, mw) ==
     LET ms == PMs(msA)  pp == PP(ppA) IN
@@ -77,28 +92,47 @@ DoPulse(s, t, msA, ppA, mw) ==
     ELSE LET w == Psu(s.busy, t, ms, mw)  s1 == [s EXCEPT !.busy = w[2]] IN
          IF w[1] > 0 THEN [s1 EXCEPT !.pend = Append(@, [at |-> t + w[1], k |-> "pulse", ms |-> ms, pp |-> pp, hp |-> 0])]
          ELSE DoPulseNow(s1, t, ms, pp)
-DoEnable(s, t, msA, ppA, hpA, mw) ==
-    LET ms == PMs(msA)  pp == PP(ppA)  hp == HP(hpA) IN
+\* hp: the hold power in percent as the platform is told, hpf: the hold power asked for in 1/100 percent (what the limit judges)
+DoEnableF(s, t, msA, ppA, hp, hpf, mw) ==
+    LET ms == PMs(msA)  pp == PP(ppA) IN
     IF ~MsOK(ms) THEN Refused(s)
     ELSE LET w == Psu(s.busy, t, ms, mw)  s1 == [s EXCEPT !.busy = w[2]] IN     \* the power supply is told first
-         IF ~PowOK(pp) \/ ~HoldOK(hp) \/ hp = 0 THEN Refused(s1)
+         IF ~PowOK(pp) \/ ~HoldOKF(hpf) \/ hpf = 0 THEN Refused(s1)
          ELSE IF w[1] > 0 THEN [s1 EXCEPT !.pend = Append(@, [at |-> t + w[1], k |-> "enable", ms |-> ms, pp |-> pp, hp |-> hp])]
          ELSE DoEnableNow(s1, t, ms, pp, hp)
+DoEnable(s, t, msA, ppA, hpA, mw) == DoEnableF(s, t, msA, ppA, HP(hpA), 100 * HP(hpA), mw)
+\* ---- the light on the coil (mpf/platforms/driver_light_platform.py) ------------------------------------------
+\* one brightness step of the light channel: b percent as the platform will be told, bf the same in 1/100 percent
+DoLight(s, t, b, bf) == LET s1 == [s EXCEPT !.lb = b] IN
+                        IF bf <= 0 THEN DoDisable(s1) ELSE DoEnableF(s1, t, NONE, NONE, b, bf, NONE)
+FadeVal(f, t) == IF t >= f.t1 THEN f.b1 ELSE f.b0 + ((f.b1 - f.b0) * (t - f.t0)) \div (f.t1 - f.t0)
+\* a step of the software fade; a step the coil refuses ends the fade (the fade task dies with the error)
+FireTick(s, t) == LET f == s.fade  v == FadeVal(f, t)
+                      s1 == [s EXCEPT !.err = FALSE, !.fade = IF t >= f.t1 THEN NoFade ELSE [f EXCEPT !.nx = t + Tick]]
+                      r == DoLight(s1, t, v, 100 * v) IN
+                  [r EXCEPT !.err = s.err, !.fade = IF r.err THEN NoFade ELSE r.fade]
 \* timers: the software pulse timer, the hold watchdog and the postponed requests; all that are due fire in time order,
 \* timers due at the same instant in any order (the statement is silent about it): the set of possible outcomes
-Timers(s) == ({s.sw, s.ho} \ {0}) \cup {s.pend[i].at : i \in DOMAIN s.pend}
+Timers(s) == ({s.sw, s.ho, s.fade.nx} \ {0}) \cup {s.pend[i].at : i \in DOMAIN s.pend}
 FireSw(s) == [DoDisable(s) EXCEPT !.sw = 0]
 FirePend(s, t) == LET p == Head(s.pend)  s1 == [s EXCEPT !.pend = Tail(@)] IN
                   IF p.k = "enable" THEN DoEnableNow(s1, t, p.ms, p.pp, p.hp) ELSE DoPulseNow(s1, t, p.ms, p.pp)
 Fire(s, t) == (IF s.sw = t THEN {FireSw(s)} ELSE {}) \cup (IF s.ho = t THEN {DoDisable(s)} ELSE {})
               \cup (IF s.pend # <<>> /\ Head(s.pend).at = t THEN {FirePend(s, t)} ELSE {})
+              \cup (IF s.fade.nx = t THEN {FireTick(s, t)} ELSE {})
 RECURSIVE Drain(_, _)
 Drain(s, lim) == LET due == {x \in Timers(s) : x <= lim} IN
                  IF due = {} THEN {s}
                  ELSE UNION {Drain(f, lim) : f \in Fire(s, CHOOSE m \in due : \A y \in due : m <= y)}
+\* time passes up to an instant t at which something else happens (a step of the light): every timer due before t has
+\* fired, those due at t may or may not have fired yet (the statement is silent about the order within an instant)
+RECURSIVE DrainOpt(_, _)
+DrainOpt(s, t) == {s} \cup UNION {DrainOpt(f, t) : f \in Fire(s, t)}
+DrainPart(s, t) == UNION {DrainOpt(x, t) : x \in Drain(s, t - 1)}
 \* (\E over a singleton: TLC evaluates the record once)
 Commit(r, a) == \E s \in {r} : /\ on' = s.on /\ swOffAt' = s.sw /\ holdOffAt' = s.ho /\ busy' = s.busy /\ pend' = s.pend
                                 /\ out' = s.out /\ err' = s.err /\ act' = a
+                                /\ fade' = s.fade /\ lb' = s.lb /\ since' = s.since
 \* ---- actions ----------------------------------------------------------------------------------------------------
 Call(mw) == nops < MaxOps /\ nops' = nops + 1 /\ (mw = NONE \/ Len(pend) < MaxPend) /\ UNCHANGED <<cfg, now>>
 Pulse(msA, ppA, mw) == Call(mw) /\ Commit(DoPulse(Cur, now, msA, ppA, mw), [op |-> "pulse", ms |-> msA, pp |-> ppA, mw |-> mw])
@@ -123,10 +157,25 @@ SetDef(w, v) == /\ nops < MaxOps /\ nops' = nops + 1 /\ UNCHANGED now
                 /\ \/ w = "pulse_ms" /\ cfg.dynP /\ cfg' = [cfg EXCEPT !.defPulseMs = v]
                    \/ w = "timed_enable_ms" /\ cfg.dynT /\ cfg' = [cfg EXCEPT !.defTE = v]
                 /\ Commit(Cur, [op |-> "setdef", w |-> w, v |-> v])
+\* the light on the coil is asked for brightness b, at once (f = 0) or fading there within f ms; the first step of a
+\* fade (the brightness the fade starts from) is made at once
+LightOn(b, f) ==
+    /\ cfg.light /\ Call(NONE)
+    /\ Commit(IF f = 0 THEN DoLight([Cur EXCEPT !.fade = NoFade], now, b, 100 * b)
+              ELSE FireTick([Cur EXCEPT !.fade = [b0 |-> lb, t0 |-> now, b1 |-> b, t1 |-> now + f, nx |-> now]], now),
+              [op |-> "lighton", b |-> b, f |-> f])
+\* one observed step of the light channel (a trace tells the steps of a fade one by one, each at its time)
+LightStep(b, bf) == /\ cfg.light /\ Call(NONE) /\ bf - 100 * b <= 50 /\ 100 * b - bf <= 50
+                    /\ Commit(DoLight(Cur, now, b, bf), [op |-> "light", b |-> b, bf |-> bf])
+\* the light device is asked something (colour, on, off, flash ...): whatever it makes of it reaches the coil as LightSteps
+LightReq == cfg.light /\ Commit(Cur, [op |-> "lightreq"]) /\ UNCHANGED <<cfg, now, nops>>
 \* time passes; every timer that becomes due fires
 Adv(d) == /\ now + d <= MaxTime /\ now' = now + d
           /\ \E r \in Drain(Cur, now + d) : Commit(r, [op |-> "adv", d |-> d])
           /\ UNCHANGED <<cfg, nops>>
+AdvPart(d) == /\ now + d <= MaxTime /\ now' = now + d
+              /\ \E r \in DrainPart(Cur, now + d) : Commit(r, [op |-> "adv", d |-> d])
+              /\ UNCHANGED <<cfg, nops>>
 Next == \/ \E ms \in MsVals, pp \in PowVals, mw \in MwVals : Pulse(ms, pp, mw)
         \/ \E ms \in MsVals, pp \in PowVals, hp \in PowVals, mw \in MwVals : Enable(ms, pp, hp, mw)
         \/ \E te \in TeVals, hp \in PowVals, ms \in MsVals, pp \in PowVals, mw \in MwVals : TimedEnable(te, hp, ms, pp, mw)
@@ -134,6 +183,7 @@ Next == \/ \E ms \in MsVals, pp \in PowVals, mw \in MwVals : Pulse(ms, pp, mw)
         \/ \E ms \in MsVals, pp \in PowVals, hp \in PowVals : Rule(ms, pp, hp, TRUE)
         \/ \E ms \in OtherMs : OtherPulse(ms)
         \/ \E w \in {"pulse_ms", "timed_enable_ms"}, v \in DefVals : SetDef(w, v)
+        \/ \E b \in LightVals, f \in FadeMs : LightOn(b, f)
         \/ Disable \/ \E d \in Steps : Adv(d)
 Spec == Init /\ [][Next]_vars
 \* ---- statement of C08 -------------------------------------------------------------------------------------
@@ -151,6 +201,8 @@ Envelope == [][\A i \in DOMAIN out' : CmdOK(out'[i])]_vars
 RefuseNotCommand == err => out = <<>>
 SoftwarePulseEnds == on = "swpulse" => (swOffAt # 0 /\ now <= swOffAt)
 HoldWatchdog == (on = "hold" /\ cfg.maxHoldDur # 0) => (holdOffAt # 0 /\ now <= holdOffAt /\ holdOffAt <= now + cfg.maxHoldDur)
+\* whatever switched it on (enable, a postponed enable, its light, a fade of its light): never held longer than allowed
+HeldNoLonger == (on = "hold" /\ cfg.maxHoldDur # 0) => now - since <= cfg.maxHoldDur
 \* a postponed request was verified when it was made, waits in time order and never longer than the supply is busy
 PendSane == \A i \in DOMAIN pend : /\ pend[i].at > now /\ pend[i].at < busy
                                    /\ MsOK(pend[i].ms) /\ PowOK(pend[i].pp) /\ (pend[i].k = "enable" => HoldOK(pend[i].hp) /\ pend[i].hp # 0)
